@@ -93,6 +93,11 @@ func (W) Gen(prop string, seed uint64, tier string) *world.Plan {
 	p := &world.Plan{Prop: prop, World: "var", Seed: seed}
 	p.Sched.GCPermille = []int{0, 50, 200}[r.Intn(3)]
 	p.Sched.MaxGC = 4
+	if r.Chance(350) {
+		// the caller keeps the VarMock handle of its first lookup and keeps using it across
+		// Cancel / Reset instead of asking the builder again
+		p.Knobs = map[string]int{"handles": 1}
+	}
 	nB := 1 + r.Intn(2)
 	nV := 1 + r.Intn(4)
 	vs := []int{int(seed % uint64(len(vars.Vars)))}
@@ -151,6 +156,9 @@ type exec struct {
 	st       map[int]*vstate
 	pristine map[int]interface{}
 	at       string
+	// keepHandles: one VarMock handle per (builder, variable) for the whole history
+	keepHandles bool
+	handles     map[[2]int]mocker.VarMock
 }
 
 func deref(p interface{}) interface{} { return reflect.ValueOf(p).Elem().Interface() }
@@ -163,11 +171,23 @@ func (x *exec) builder(b int) *mocker.Builder {
 }
 
 func (x *exec) mock(b, vi int) mocker.VarMock {
-	v := vars.Vars[vi]
-	if v.Path != "" {
-		return x.builder(b).UnExportedVar(v.Path)
+	if x.keepHandles {
+		if h := x.handles[[2]int{b, vi}]; h != nil {
+			x.env.Probe("kept_var_handle_reused")
+			return h
+		}
 	}
-	return x.builder(b).Var(v.Ptr)
+	v := vars.Vars[vi]
+	var m mocker.VarMock
+	if v.Path != "" {
+		m = x.builder(b).UnExportedVar(v.Path)
+	} else {
+		m = x.builder(b).Var(v.Ptr)
+	}
+	if x.keepHandles {
+		x.handles[[2]int{b, vi}] = m
+	}
+	return m
 }
 
 func (x *exec) fail(sig, format string, a ...interface{}) {
@@ -305,7 +325,8 @@ func (W) Exec(p *world.Plan, env *world.Env) {
 		env.Res.Verdict = "invalid"
 		return
 	}
-	x := &exec{env: env, builders: map[int]*mocker.Builder{}, st: map[int]*vstate{}, pristine: map[int]interface{}{}}
+	x := &exec{env: env, builders: map[int]*mocker.Builder{}, st: map[int]*vstate{}, pristine: map[int]interface{}{},
+		keepHandles: p.Knobs["handles"] == 1, handles: map[[2]int]mocker.VarMock{}}
 	for i, v := range vars.Vars {
 		x.pristine[i] = deref(v.Ptr)
 	}
